@@ -174,6 +174,12 @@ def _setup_job(spec, tier, depth2, part):
                     obs, br = E.run_expr_op(d, op, who)
                     _record(acc, M, 'expr2', d, op, who, W.CALLERS[who],
                             obs, br, first=first)
+            if tier == 'thorough':
+                for op in [o for o in R.rest_ops(s) if o.mode]:
+                    for who in actors:
+                        obs, br = R.run_rest_op(d, op, who)
+                        _record(acc, M, 'rest2', d, op, who,
+                                W.CALLERS[who], obs, br, first=first)
     # audit: rebuild from the empty DB, same observations
     k = AUDIT_PER_SETUP[tier]
     if k and done:
@@ -319,7 +325,8 @@ def main(tier):
     for g, bs in groups.items():
         first = bs[0]
         lvl = first['level']
-        tenant_facing = lvl in ('rest', 'expr', 'expr2', 'engine', 'use')
+        tenant_facing = lvl in ('rest', 'rest2', 'expr', 'expr2', 'engine',
+                                'use')
         real = [b for b in bs if not b['synthetic']]
         if not tenant_facing:
             # db level: only functions reached from a route a non-admin may
@@ -419,7 +426,7 @@ def replay(doc):
             op1 = [o for o in W.db_ops(s) if o.id == doc['first']['op']][0]
             W.run_db_op(s, op1, doc['first']['who'])
             s = W.Derived(s, doc['first']['op'])
-        base = lvl.rstrip('2')
+        base = lvl[:-1] if lvl.endswith('2') else lvl
         ops = {'db': W.db_ops, 'rest': R.rest_ops, 'expr': E.expr_ops}[
             base](s)
         op = [o for o in ops if o.id == doc['op']][0]
